@@ -138,6 +138,7 @@ func (s Segment) Recover(params index.Params) error {
 		if err := os.Truncate(s.Log, 0); err != nil {
 			return fmt.Errorf("restore log truncate: %w", err)
 		}
+		vhook.FSEvent("truncate", s.Log, "", 0, 0)
 	}
 
 	log, err := message.OpenReader(s.Log, s.Offset)
@@ -149,6 +150,8 @@ func (s Segment) Recover(params index.Params) error {
 	restorePath := s.Log + ".recover"
 	if err := os.Remove(restorePath); err != nil && !errors.Is(err, os.ErrNotExist) {
 		return fmt.Errorf("restore remove stale temp: %w", err)
+	} else if err == nil {
+		vhook.FSEvent("remove", restorePath, "", 0, 0)
 	}
 	restore, err := message.OpenWriter(restorePath, s.Offset, log.Version())
 	if err != nil {
